@@ -1755,8 +1755,15 @@ class RTCSctpTransport(AsyncIOEventEmitter):
             and self._reconfig_queue
             and not self._reconfig_request
         ):
-            streams = self._reconfig_queue[0:RECONFIG_MAX_STREAMS]
-            self._reconfig_queue = self._reconfig_queue[RECONFIG_MAX_STREAMS:]
+            # a stream is only reset once everything queued for it has been sent
+            queued = [item[0].id for item in self._data_channel_queue]
+            streams = [x for x in self._reconfig_queue if x not in queued]
+            streams = streams[0:RECONFIG_MAX_STREAMS]
+            if not streams:
+                return
+            self._reconfig_queue = [
+                x for x in self._reconfig_queue if x not in streams
+            ]
             param = StreamResetOutgoingParam(
                 request_sequence=self._reconfig_request_seq,
                 response_sequence=self._reconfig_response_seq,
@@ -1880,6 +1887,10 @@ class RTCSctpTransport(AsyncIOEventEmitter):
                     ordered=channel.ordered,
                 )
                 channel._addBufferedAmount(-len(user_data))
+
+        # stream resets which were waiting for queued data can go out now
+        if self._reconfig_queue:
+            await self._transmit_reconfig()
 
     def _data_channel_add_negotiated(self, channel: RTCDataChannel) -> None:
         if channel.id in self._data_channels:
